@@ -288,6 +288,11 @@ def check(prop_id, tier):
     print(f'[{prop_id}] tier={tier} VERIF_SEED={seed0} runs={n} workers={workers} '
           f'first_seeds={[s for _, s in items[:4]]}', flush=True)
 
+    if os.path.abspath(os.environ.get('PYCEL_SRC', '/repo/src')) == '/repo/src':
+        # replay files of earlier runs of this check are not findings of this run
+        import glob
+        for old in glob.glob(os.path.join(VERIF, 'replays', f'{prop_id}-*.json')):
+            os.unlink(old)
     results = run_pool(prop_id, tier, items, workers)
     errors = [r for r in results if r.get('harness_error')]
     if errors:
